@@ -22,15 +22,30 @@ Definition fuel_of (g : graph) : nat := S (length g).
 Definition out_kind (o : outcome) : Z * Z :=
   match o with Val v => (0, v) | Err v => (1, v) | Crash => (2, 0) | OutOfFuel => (3, 0) end.
 
-(* the model's run: (kind, value, CurrentValue, some PID term was NaN in this call) per call *)
-Fixpoint model_run (g : graph) (root : Z) (evs : list evstep) (s : runst) : list (Z * Z * Z * bool) :=
+(* one row of the model's run: what the model predicts for one call *)
+Record mrow := mkRow {
+  m_kind : Z; m_val : Z; m_cur : Z;
+  m_nan : bool;                  (* some PID term was NaN in this call *)
+  m_mvals : option (list Z);     (* root function curve, successful call: the member values, in order *)
+}.
+
+(* the member values of a root function curve in this call (the tree evaluator on the unfolding;
+   by geval_unfold the same evaluation the registry performs) *)
+Definition model_mvals (t : option curve) (e : env) (now : Z) (st : rtstate) : option (list Z) :=
+  match t with
+  | Some (Fn _ ms) => match eval_members ms e now st with (MVals vs, _) => Some vs | _ => None end
+  | _ => None
+  end.
+
+Fixpoint model_run (g : graph) (root : Z) (t : option curve) (evs : list evstep) (s : runst) : list mrow :=
   match evs with
   | [] => []
   | ev :: r =>
       let s0 := mkRun (mkRts (rt_pids (ru_rt s)) false) (ru_now s) (ru_cur s) in
       let '(o, s') := run_step (fun rt now => geval (fuel_of g) g root (ev_env ev) now rt) s0 (ev_dt ev) in
       let '(k, v) := out_kind o in
-      (k, v, ru_cur s', rt_nan (ru_rt s')) :: model_run g root r s'
+      mkRow k v (ru_cur s') (rt_nan (ru_rt s')) (model_mvals t (ev_env ev) (ru_now s') (ru_rt s0))
+      :: model_run g root t r s'
   end.
 
 Fixpoint all2b {A B} (f : A -> B -> bool) (l1 : list A) (l2 : list B) : bool :=
@@ -40,11 +55,21 @@ Fixpoint all2b {A B} (f : A -> B -> bool) (l1 : list A) (l2 : list B) : bool :=
   | _, _ => false
   end.
 
-Definition ev_agrees (m : Z * Z * Z * bool) (ev : evstep) : bool :=
-  let '(k, v, cur, _) := m in (k =? o_kind ev) && (v =? o_val ev) && (cur =? o_cur ev).
+(* the members' CurrentValue() is compared when the call succeeded (every member was evaluated) *)
+Definition ev_agrees (m : mrow) (ev : evstep) : bool :=
+  (m_kind m =? o_kind ev) && (m_val m =? o_val ev) && (m_cur m =? o_cur ev)
+  && match m_mvals m with
+     | Some vs => if m_kind m =? 0 then list_eqb Z.eqb vs (o_mvals ev) else true
+     | None => true
+     end.
+
+Definition tree_of_gr (g : graph) (root : Z) : option curve := unfold (fuel_of g) g root.
+
+Definition model_rows (g : graph) (root : Z) (evs : list evstep) : list mrow :=
+  model_run g root (tree_of_gr g root) evs init_run.
 
 Definition mismatch (c : case) : bool :=
-  negb (all2b ev_agrees (model_run (c_graph c) (c_root c) (c_evs c) init_run) (c_evs c)).
+  negb (all2b ev_agrees (model_rows (c_graph c) (c_root c) (c_evs c)) (c_evs c)).
 
 (* ---- exact rationals ---- *)
 Definition f2q (x : f64) : option (Z * Z) :=      (* value = n / d, d > 0 *)
@@ -66,12 +91,13 @@ Fixpoint keys_sortedb (l : list (Z * f64)) : bool :=
   end.
 Definition speed_okb (y : f64) : bool := PrimFloat.leb 0 y && PrimFloat.leb y 255.
 Definition big : Z := 2 ^ 40.
+Definition kbig : Z := 2 ^ 20.        (* step temperatures: |key| < 2^20 degrees *)
 
 Definition wf_linb (c : lincfg) : bool :=
   match l_steps c with
   | None => (l_min c <? l_max c) && (- big <? l_min c) && (l_max c <? big)
   | Some steps => negb (match steps with [] => true | _ => false end)
-                  && forallb (fun kv => speed_okb (snd kv) && (- big <? fst kv) && (fst kv <? big)) steps
+                  && forallb (fun kv => speed_okb (snd kv) && (- kbig <? fst kv) && (fst kv <? kbig)) steps
                   && keys_sortedb steps
   end.
 Definition wf_pidb (c : pidcfg) : bool :=
@@ -163,7 +189,7 @@ Definition ev_okb (t : curve) (ev : evstep) : bool :=
     (o_kind ev =? 0) && in255b (o_val ev) && (o_cur ev =? o_val ev) && root_doc_okb t ev
   else true.
 
-Definition tree_of (c : case) : option curve := unfold (fuel_of (c_graph c)) (c_graph c) (c_root c).
+Definition tree_of (c : case) : option curve := tree_of_gr (c_graph c) (c_root c).
 
 Definition holdsb (c : case) : bool :=
   match tree_of c with
@@ -271,9 +297,9 @@ Qed.
 Definition finding_code (c : case) : Z :=
   match tree_of c with
   | Some t =>
-      let m := model_run (c_graph c) (c_root c) (c_evs c) init_run in
+      let m := model_rows (c_graph c) (c_root c) (c_evs c) in
       if negb (mismatch c) && wfb t
-         && all2b (fun (mr : Z * Z * Z * bool) ev => ev_okb t ev || snd mr) m (c_evs c)
+         && all2b (fun (mr : mrow) ev => ev_okb t ev || m_nan mr) m (c_evs c)
          && negb (holdsb c)
       then 1 else 0
   | None => 0
